@@ -56,6 +56,28 @@ Theorem c18_dial_target_no_scheme (is_ip : str -> bool) e path dial socks :
 Proof. exact (dial_target_no_scheme is_ip e path dial socks). Qed.
 Print Assumptions c18_dial_target_no_scheme.
 
+(** With Opt.Bootstrap: resolving the host through the bootstrap server
+    changes neither the host that is resolved nor the port — the connection
+    goes to (address of the host the user wrote) : (the port the user wrote,
+    else the scheme default); and the bootstrap is only consulted for a host
+    that is not an IP literal, and not when a proxy is used (quic/h3 have no
+    proxy support). *)
+Theorem c18_bootstrap_keeps_port (is_ip : str -> bool) nm tr def e path dial socks bs t plan :
+  In (nm, tr, def) scheme_table ->
+  wf_ep e = true -> url_ok_ep e = true -> wf_path path = true -> dial_wf dial = true ->
+  new_upstream_bs is_ip (lit nm ++ lit "://" ++ render_ep e ++ path) (render_dial dial) socks bs = Some (t, plan) ->
+  plan_host plan = ep_host (eff_ep e dial) /\ plan_port plan = port_or (ep_port (eff_ep e dial)) def.
+Proof. exact (bootstrap_keeps_port is_ip nm tr def e path dial socks bs t plan). Qed.
+Print Assumptions c18_bootstrap_keeps_port.
+
+Theorem c18_bootstrap_keeps_target (is_ip : str -> bool) addr dial socks bs t plan :
+  new_upstream_bs is_ip addr dial socks bs = Some (t, plan) ->
+  new_upstream is_ip addr dial socks = Some t /\ plan_host plan = t_host t /\ plan_port plan = t_port t
+  /\ (forall h p, plan = DialBootstrap h p ->
+        (socks = false \/ t_transport t = TH3 \/ t_transport t = TQuic) /\ is_ip (t_host t) = false /\ bs <> []).
+Proof. exact (bootstrap_keeps_target is_ip addr dial socks bs t plan). Qed.
+Print Assumptions c18_bootstrap_keeps_target.
+
 (** *** Refusals happen at creation *)
 
 (** A scheme outside the table (after the helper rewriting) is refused. *)
